@@ -289,6 +289,10 @@ func (s *Sim) replyAccess(r *mqReq, rec Rec, out, arg string) []byte {
 }
 
 func (s *Sim) replyCall(r *mqReq, rec Rec, out, arg string) []byte {
+	if out == "raw" {
+		rec["kind"] = "result"
+		return []byte(`{"result":` + arg + `}`)
+	}
 	if out == "res" && arg != "" {
 		rec["kind"], rec["rrid"] = "resource", arg
 		return mustJSON(map[string]any{"resource": map[string]any{"rid": arg}})
